@@ -118,6 +118,23 @@ def pos(x):
     return x.a > 0
 
 
+FAULT = {"armed": False, "j": None, "count": 0, "raised": 0}
+
+
+class UserFault(RuntimeError):
+    """Raised from user code (a predicate) in the middle of an evaluation."""
+
+
+@predicate
+def faulty(x):
+    """Like pos(x) but raises at its j-th call while armed (j may be symbolic)."""
+    FAULT["count"] += 1
+    if FAULT["armed"] and FAULT["j"] == FAULT["count"]:
+        FAULT["raised"] += 1
+        raise UserFault("user predicate failed at call %d" % FAULT["count"])
+    return x.a > 0
+
+
 @dataclass(eq=False)
 class BigP(Predicate):
     it: Any
@@ -168,7 +185,7 @@ def cond_vars(c) -> List[str]:
             opv(c[2]); opv(c[3])
         elif k in ("in", "contains"):
             opv(c[1]); opv(c[2])
-        elif k in ("flag", "m", "pf", "PC", "HT"):
+        elif k in ("flag", "m", "pf", "PC", "HT", "ff"):
             if c[1] not in out:
                 out.append(c[1])
         elif k == "big":
@@ -315,6 +332,8 @@ def build(c, V):
         return pos(V[c[1]])
     if k == "PC":
         return BigP(it=V[c[1]])
+    if k == "ff":
+        return faulty(V[c[1]])
     if k == "HT":
         from entity_query_language import HasType
         return HasType(variable=V[c[1]], types_=SubItem)
@@ -385,7 +404,7 @@ def holds(alg, c, env, pools=None):
         return alg.cmp("lt", env[c[1]].b, env[c[1]].c)
     if k == "big":
         return alg.cmp("gt", env[c[1]].a, c[2])
-    if k == "pf":
+    if k in ("pf", "ff"):
         return alg.cmp("gt", env[c[1]].a, 0)
     if k == "PC":
         return alg.cmp("gt", env[c[1]].b, 1)
